@@ -261,6 +261,8 @@ def check_property(prop, tier="quick", seed=0, only=None, verbose=False, record_
     shapes_of = {c.cid: _shapes(c, tier, prop) for c in cts}
     for c in cts:
         for p in shapes_of[c.cid]:
+            if p.get("sample_only"):
+                continue   # a shape too large for exhaustive path exploration: decided by the sampled native pass only
             jobs.append(dict(cid=c.cid, params=p, tier=tier, seed=seed, prop=prop))
     # sampled native pass (plain CPython numbers, unpatched code): catches what the exact-real
     # proxies cannot see (float rounding, operations outside the proxy model)
@@ -268,7 +270,7 @@ def check_property(prop, tier="quick", seed=0, only=None, verbose=False, record_
     for c in cts:
         if c.mode in ("B", "U") and not c.budget.get("no_sampling"):
             for p in shapes_of[c.cid]:
-                jobs.append(dict(cid=c.cid, params=p, tier=tier, seed=seed, prop=prop, sample=nsample))
+                jobs.append(dict(cid=c.cid, params=p, tier=tier, seed=seed, prop=prop, sample=nsample * int(p.get("sample_factor", 1))))
     nproc = int(os.environ.get("VERIF_NPROC", "16"))
     hard = 600 if tier == "quick" else 3600
     results = run_jobs(jobs, nproc, hard)
